@@ -522,6 +522,7 @@ class StepClock(object):
 # ---------------------------------------------------------------------------------------------
 
 CPU_LIMIT_S = float(os.environ.get("VERIF_CPU_LIMIT", "6"))
+UNBUDGETED_CPU_LIMIT_S = float(os.environ.get("VERIF_CPU_LIMIT_UNBUDGETED", "90"))   # container / CLI calls run without a step budget
 
 
 @contextlib.contextmanager
@@ -606,7 +607,8 @@ class SimWorld(object):
                 if budget is not None:
                     with cpu_limit(CPU_LIMIT_S + budget / 1.0e6), self.clock.running(budget):
                         return fn(*args, **kw), None
-                return fn(*args, **kw), None
+                with cpu_limit(UNBUDGETED_CPU_LIMIT_S):
+                    return fn(*args, **kw), None
             except StepBudgetExceeded as e:
                 return None, e
             except Exception as e:  # an observation for the oracle, not a harness error
@@ -631,7 +633,8 @@ class SimWorld(object):
                         with cpu_limit(CPU_LIMIT_S + budget / 1.0e6), self.clock.running(budget):
                             mod.main(mod.parse_arguments())
                     else:
-                        mod.main(mod.parse_arguments())
+                        with cpu_limit(UNBUDGETED_CPU_LIMIT_S):
+                            mod.main(mod.parse_arguments())
                     res.status = 0
                 except SystemExit as e:
                     code = e.code
